@@ -140,6 +140,9 @@ func cmdRecordTxn(args []string) error {
 		}
 		in.Close()
 	}
+	if st, err := json.Marshal(g.Stats); err == nil {
+		fmt.Fprintf(os.Stderr, "STATS %s\n", st)
+	}
 	return nil
 }
 
